@@ -805,7 +805,8 @@ pub fn gen_prog(src: &mut Src) -> Prog {
     }
     let (mods, forced_key): (Vec<Mo>, Option<KeyCode>) = if !earlier.is_empty() && ((kind == 2 && src.chance(60)) || (kind == 0 && src.chance(15))) {
       let (mut m, k) = src.pick(&earlier);
-      match src.weighted(&[if kind == 2 { 50 } else { 0 }, 30, 20, if kind == 2 { 35 } else { 10 }, if kind == 2 && allow_dup_ro { 35 } else { 0 }, if kind == 2 { 30 } else { 10 }]) {
+      let mut coincide: Option<(usize, KeyCode)> = None;
+      let r = match src.weighted(&[if kind == 2 { 50 } else { 0 }, 30, 20, if kind == 2 { 35 } else { 10 }, if kind == 2 && allow_dup_ro { 35 } else { 0 }, if kind == 2 { 30 } else { 10 }]) {
         4 => {} // spelled exactly as before
         5 => {
           // a plain key that is a one-key definition of an alias: the alias instead
@@ -816,6 +817,13 @@ pub fn gen_prog(src: &mut Src) -> Prog {
                 if !m.contains(&Mo::Alias(ai)) {
                   m[pos] = Mo::Alias(ai);
                   done = true;
+                  // (round 2) now and then the alias gets one more one-key definition: the final
+                  // key of the targeted mapping. One combination of the entry then meets the
+                  // mapping, the other names a key twice - reject or run (C14's domain; C13
+                  // discards such programs)
+                  if kind == 2 && src.chance(25) {
+                    coincide = Some((ai, k));
+                  }
                   break;
                 }
               }
@@ -854,6 +862,13 @@ pub fn gen_prog(src: &mut Src) -> Prog {
             let i = src.below(m.len());
             m.remove(i);
           }
+        }
+      };
+      let _ = r;
+      if let Some((ai, kk)) = coincide {
+        if !aliases[ai].defs.iter().any(|d| d.keys.contains(&kk)) {
+          aliases[ai].defs.push(AliasDef { keys: vec![kk], extra: vec![] });
+          body.push(Item::AliasDef(ai, aliases[ai].defs.len() - 1));
         }
       }
       (m, Some(k))
@@ -1265,7 +1280,7 @@ pub fn check(cfg: &RunCfg, _findings: &Findings) -> Report {
     cfg,
     "C13-programs",
     16,
-    if quick { 30_000 } else { 250_000 },
+    if quick { 90_000 } else { 250_000 },
     64,
     700,
     |src: &mut Src| gen_case(src),
